@@ -49,6 +49,7 @@ var (
 	inDoc2     = []byte(` [[1.25],[2.5,[3.75e1]],{"k":[4.5]}] `)
 	inDoc3     = []byte(`[{"a":{"b":{}}},[[]],"` + "\\" + `ud83d` + "\\" + `ude00"]`)
 	inDoc4     = []byte(`{"alpha":1,"beta":2,"gamma":3,"x` + "\\" + `ty":4}`)
+	inDeep6000 = []byte(strings.Repeat("[", 6000) + strings.Repeat("]", 6000))
 	inBad      = []byte(`[[1.5],{"a":[2.5,}]`)
 	inBadFast  = []byte(`{"a":[1,2`)
 	inFloatF   = []byte(`1.5`)
@@ -83,7 +84,7 @@ var sharedInputs = func() []struct {
 	mk := func(n string, b []byte) in { return in{n, b, append([]byte(nil), b...)} }
 	return []in{mk("inDoc", inDoc), mk("inDoc2", inDoc2), mk("inDoc3", inDoc3), mk("inDoc4", inDoc4), mk("inBad", inBad), mk("inBadFast", inBadFast),
 		mk("inFloatF", inFloatF), mk("inFloatEL", inFloatEL), mk("inFloatS1", inFloatS1), mk("inFloatS2", inFloatS2), mk("inFloatOv", inFloatOv), mk("inInt", inInt), mk("inUint", inUint),
-		mk("inStrEsc", inStrEsc), mk("inStrPair1", inStrPair1), mk("inStrPair2", inStrPair2), mk("inLit", inLit), mk("inNull", inNull), mk("inUTF8", inUTF8), mk("inDeep", inDeep)}
+		mk("inStrEsc", inStrEsc), mk("inStrPair1", inStrPair1), mk("inStrPair2", inStrPair2), mk("inLit", inLit), mk("inNull", inNull), mk("inUTF8", inUTF8), mk("inDeep", inDeep), mk("inDeep6000", inDeep6000)}
 }()
 
 func restoreInputs() {
@@ -99,6 +100,21 @@ func modifiedInput() string {
 		}
 	}
 	return ""
+}
+
+// handlerPoint is called from handler callbacks of the templates: a scheduling point under the
+// cooperative scheduler, nothing otherwise.
+var handlerPoint = func() {}
+
+// recurseArrays traverses nested arrays with a handler that recurses through the public API.
+func recurseArrays(data []byte, buf *rjson.Buffer) (int, error) {
+	return rjson.HandleArrayValues(data, rjson.ArrayValueHandlerFunc(func(d []byte) (int, error) {
+		handlerPoint()
+		if len(d) > 0 && d[0] == '[' {
+			return recurseArrays(d, buf)
+		}
+		return 0, nil
+	}), buf)
 }
 
 type concTemplate struct {
@@ -144,6 +160,12 @@ func concTemplates() []concTemplate {
 				return rjson.SkipValue(d, &b)
 			}), &b)
 			return f("%q %d %v", out, p, err)
+		}},
+		{"recursive handlers(depth 6000)", func() string { p, err := recurseArrays(inDeep6000, nil); return f("%d %v", p, err) }},
+		{"recursive handlers(depth 5500, own buffer)", func() string {
+			var b rjson.Buffer
+			p, err := recurseArrays(inDeep6000[500:len(inDeep6000)-500], &b)
+			return f("%d %v", p, err)
 		}},
 		{"HandleObjectValues(doc4,reused key scratch)", func() string {
 			var out []string
@@ -292,9 +314,13 @@ func runScheduled(ts []concTemplate, idx []int, c *eng.Chooser) schedResult {
 		pools[unsafe.Pointer(p)] = true
 		s.Point()
 	}
+	handlerPoint = s.Point
 	vsync.Yield = s.Yield
 	vsync.LockOp = func(m *vsync.Mutex, lock bool) { s.LockOp(m, lock) }
-	defer func() { verifhook.Sched, vsync.Point, vsync.Yield, vsync.LockOp = nil, nil, nil, nil }()
+	defer func() {
+		verifhook.Sched, vsync.Point, vsync.Yield, vsync.LockOp = nil, nil, nil, nil
+		handlerPoint = func() {}
+	}()
 	bodies := make([]func(), len(idx))
 	for i, ti := range idx {
 		i, ti := i, ti
@@ -396,7 +422,9 @@ func c18(r *eng.Run) {
 		}
 		return false
 	}
+	eng.MaxDeviationPositions = 300
 	bound := r.Pick(2, 3)
+	thinned := 0
 	schedules, scenarios, conflicting, outcomes := 0, 0, 0, map[string]bool{}
 	explore := func(idx []int, b int) {
 		scenarios++
@@ -424,13 +452,19 @@ func c18(r *eng.Run) {
 			}
 		}, 0, b)
 		schedules += st.Executions
+		if st.Thinned {
+			thinned++
+		}
 	}
 	// Phase B: all unordered pairs (incl. a template with itself) whose sets conflict, plus a
 	// fixed subset of non-conflicting pairs (engine liveness on the unchanged tree)
 	fixed := 0
 	for i := range ts {
 		for j := i; j < len(ts); j++ {
-			if conflict(alone[i], alone[j]) {
+			if strings.HasPrefix(ts[i].name, "recursive handlers") && strings.HasPrefix(ts[j].name, "recursive handlers") {
+				// long executions (thousands of handler callbacks): one preemption, thinned positions
+				explore([]int{i, j}, 1)
+			} else if conflict(alone[i], alone[j]) {
 				conflicting++
 				explore([]int{i, j}, bound)
 			} else if (i*7+j*3)%23 == int(r.Seed%23) && fixed < 20 && alone[i].pts+alone[j].pts < 400 {
@@ -458,6 +492,10 @@ func c18(r *eng.Run) {
 			}
 		}
 		explore([]int{0, 5, 13}, 1)
+	}
+	r.Set("scenarios_with_thinned_preemption_positions", thinned)
+	if thinned > 0 {
+		r.Assume(fmt.Sprintf("%d scenarios have thousands of scheduling points per execution (deep recursive handlers): their preemption positions are thinned to about %d per execution, one preemption; all other scenarios are enumerated completely within the bound", thinned, eng.MaxDeviationPositions))
 	}
 	r.Set("templates", len(ts))
 	r.Set("pairs_total", len(ts)*(len(ts)+1)/2)
